@@ -120,7 +120,9 @@ def solve(res: Result, timeout_ms=10000, procs=None):
     res.status = discharge(jobs, timeout_ms=timeout_ms, procs=procs)
     # second chance for time-outs (a loaded machine must not flip a verdict): triple budget, half the processes
     expect = {ob.name: ob.expect for ob in res.obligations}
-    retry = [j for j in jobs if isinstance(j, dict) and res.status[j["name"]][0] == "unknown" and expect.get(j["name"]) == "unsat"]
+    no_retry = getattr(res, "no_retry", set())   # obligations listed as known findings: their native witness decides, not the solver
+    retry = [j for j in jobs if isinstance(j, dict) and res.status[j["name"]][0] == "unknown" and expect.get(j["name"]) == "unsat"
+             and j["name"].split("/")[0] not in no_retry]
     if retry:
         again = discharge(retry, timeout_ms=timeout_ms * 3, procs=max(1, (procs or 16) // 2))
         for name, r in again.items():
